@@ -145,7 +145,7 @@ CLAIMS = {
        "reacting late to cancellation, ordered by hook calls; both validated by TLC against the spec and by the monitor. The pinned defect (cancelled body not awaited) was found by the "
        "check itself and fixed.",
   design_ref="DESIGN.md 3 (C13), 2.4, 2.5, 7 item 1",
-  note="ctx timeout not modelled; semaphore FIFO abstracted to any waiter; the wait loop's lock-free reads are not compared with the model; walks behind two-armed selects may be "
+  note="the ctx timeout is modelled as an environment action (Timeout) with a negative control; caller discipline (Do/Done balance) is checked for fs.Check only; semaphore FIFO abstracted to any waiter; the wait loop's lock-free reads are not compared with the model; walks behind two-armed selects may be "
        "abandoned after 5 retries (exhaustive reported false); liveness on the implementation side is bounded-wait only (30 s return, 5 s cancel); callers in fs/layer, fs, store not exercised. "
        "Trusted: TLC, the gate scheduler and projection in harness/task.",
   technique="TLA+ spec + TLC exhaustive safety and fair liveness checks with negative controls; gated edge-cover replay into Go; TLC trace validation + property monitor of gated and free-running -race traces"),
@@ -159,8 +159,7 @@ CLAIMS = {
        "gzip members, bit flips, truncation, member swaps, re-serialised TOC with fresh footer); recorded outcomes, served values and cache probes are validated by TLC against the spec and "
        "the formulas evaluated by the monitor; a free-running -race mode and an alteration sweep are decided by the monitor. Found and fixed: layer.Verify no-op after SkipVerify/Verify.",
   design_ref="DESIGN.md 3 (C01), 2.4, 2.5, 7 item 5",
-  note="Bounded: 2 chunks of one file, <=2 workers, <=2 reads, <=2 alterations, <=3 Verify calls. Memory metadata store only (db store, external-TOC compression and the FUSE node path "
-       "are not driven); tampering with uncompressed cache files at rest is out of scope (hits are unverified by design); concurrent Mounts racing on one layer object not modelled; "
+  note="Bounded: 2 chunks of one file, <=2 workers, <=2 reads, <=2 alterations, <=3 Verify calls. The db store runs the one-worker gated graph, free runs and the sweep (the two-worker graph and layer histories stay on the memory store); external-TOC blobs only with payload alterations; a retried VerifyTOC after a failed one is generated (MaxVerify=2); Clone is covered by sweep histories (monitor only); the FUSE node path is not driven; tampering with uncompressed cache files at rest is out of scope (hits are unverified by design); concurrent Mounts racing on one layer object not modelled; "
        "'valid different payload' substitution only for stored gzip; a wrong-digest-field mutant fails closed and shows as exit 2. Trusted: TLC, the concretiser and projection in harness/fs/reader.",
   technique="TLA+ spec + TLC exhaustive check with negative controls; gated edge-cover replay of the TLC state graphs into Go over really altered blobs; TLC trace validation + property monitor; monitor-only free run and alteration sweep"),
  "C02": dict(
@@ -174,7 +173,7 @@ CLAIMS = {
        "fixed: db store listed a file's chunks of a shared stream several times (b6c08c8).",
   design_ref="DESIGN.md 3 (C02), 2.4, 2.5",
   note="Bounded: <=3 files of <=9 bytes, chunk size 2-3, 3-6 option sets, 2-3 tar shapes of <=9 entries. Not covered here: remote blob / fetch failures (C06), chunk verification (C01), "
-       "real FUSE mount and passthrough, external-TOC compression, worker counts >1, directory link counts, './' root entries (C05/C15), whiteouts (C07). Concurrent runs monitor-only. "
+       "real FUSE mount and passthrough, './' root entries (C05/C15), whiteouts (C07). Covered since the second round: external-TOC blobs, 2-4 build workers, directory link counts, device numbers within the 32-bit FUSE rdev (boundaries at 8, 12, 20 bits). Concurrent runs monitor-only. "
        "Trusted: TLC, the projection in harness/fs/layer/verif_readpath.go.",
   technique="TLA+ transcriptions + TLC exhaustive check with negative controls; edge-cover replay into Go on both metadata stores; TLC trace validation + property monitor (also on free-running -race executions)"),
  "C07": dict(
